@@ -162,7 +162,14 @@ def worker(shard):
             data = enc[:pos] + [0xF8] + enc[pos:]
             acc.evals += 1
             acc.nontrivial += 1
-            got = mido.parse_all(data)
+            try:
+                got = mido.parse_all(data)
+            except Exception as e:
+                acc.violation(f'rt-in-sysex/long-payload-raises/{type(e).__name__}',
+                              f'sysex with {n} data bytes and a clock at '
+                              f'{pos}: parse_all raised {e!r}',
+                              {'kind': 'long', 'n': n})
+                continue
             if [x.type for x in got] != ['clock', 'sysex'] or \
                     list(got[-1].data) != payload:
                 acc.violation('rt-in-sysex/long-payload',
